@@ -182,7 +182,7 @@ CLAIMS = {
                 "of each cluster's members), C05_exact, C05_pairing / C05_prevPairs (sorted buffer listing zipped with sorted index listing "
                 "pairs every buffer file with its own member list), C05_handover, C05_zfill_*; for every valid policy family and every "
                 "initial directory. Correspondence: every round-* file, clusters and centroids of the real workflow vs the model."
-                + GEN.format(src="_BFSubcluster.__init__ of bitbirch.py (the re-import of a saved buffer with its member-list check; theorem gen_subcluster_init_buffer in BBProofs/GenEq6.lean)", prop="C05"),
+                + GEN.format(src="_BFSubcluster.__init__ of bitbirch.py (the re-import of a saved buffer with its member-list check; theorem gen_subcluster_init_buffer in BBProofs/GenEq6.lean) and multiround._get_files_range_tuples (a for-enumerate loop with a running index, translated as a fold; theorem C05_code_file_ranges: the index ranges handed to the first-round tasks are the model's fileTuples; BBProofs/GenEq12.lean)", prop="C05"),
         "note": TB + "PARTIAL: .npy streaming and pickle encodings are trusted to round-trip (file contents are model values; covered by the "
                 "file-by-file correspondence only). max_fps / max_files debug options and save_tree pickles are outside the model. "
                 "Round-1 trees take the default tolerance (the code does not pass `tolerance` to them): modelled as is.",
@@ -193,10 +193,14 @@ CLAIMS = {
                 "pairwise disjoint names), C06_write_comm / C06_commute (executing the tasks of a round in any order gives the same "
                 "directory), C06_sorted / C06_prevPairs (the next round's input depends only on the SET of files), C06_sched (the result of "
                 "the whole workflow is the same for every schedule). Correspondence: real workflow under random in-process task orders, "
-                "real fork/forkserver pools with 2-5 processes and max-tasks 1/2/None, serial execution, shuffled directory listings.",
+                "real fork/forkserver pools with 2-5 processes and max-tasks 1/2/None, serial execution, shuffled directory listings."
+                + GEN.format(src="multiround._get_files_range_tuples (for i, file in enumerate(files) with a running index, translated as a fold over the "
+                                 "list; the row count of a file is an input; theorems C06_code_task_tuples / C06_code_labels: the label of a first-round task "
+                                 "is the zero-padded POSITION of its file and its range starts where the previous one ends = the model's fileTuples; "
+                                 "BBProofs/GenEq12.lean)", prop="C06"),
         "note": TB + "PARTIAL: OS scheduling, process start methods and pickling of task objects are exercised, not modelled; the model's task "
                 "reads the directory as it was at the start of its round (tasks never read each other's output: C06_disjoint + names by round).",
-        "technique": "Lean 4 commutation proof over protocol model + schedule-permutation differential",
+        "technique": TGEN + " (schedule-permutation differential)",
     },
     "C14": {
         "text": "C14_fresh (for EVERY initial directory content the run's round and final files equal those of a run in an empty directory, "
